@@ -58,7 +58,7 @@ def run_native(propname, cfg, args):
     prop = resolve(propname)
     del NOTES[:]
     try:
-        checks = prop(cfg, **args)
+        checks = list(prop(cfg, **args))
     except OutsidePartition:
         return None
     except Exception as e:
